@@ -99,10 +99,10 @@ RT = [RU("ttl2", nkeys=2, depth=7), RU("tti2", nkeys=2, depth=7), RU("cap_unit",
       RS("cap2_tti", depth=7), RS("cap2_ttl_tti_w", weights=(1, 5), depth=6), RS("cap_const", weights=(1, 2), depth=6),
       RS("cap1", nkeys=3, depth=6)]
 VQ = [("unsync-small", 120, 40), ("unsync-mid", 30, 120), ("sync-small", 120, 40), ("sync-mid", 30, 120),
-      ("sync-eager", 40, 60), ("sync-far", 150, 16), ("sync-burst", 250, 3), ("sync-grow", 100, 2),
+      ("sync-eager", 40, 60), ("sync-far", 150, 16), ("sync-burst", 200, 3), ("sync-stale", 600, 0), ("sync-grow", 100, 2),
       ("unsync-batch", 16, 0), ("sync-batch", 2, 0), ("unsync-exp", 500, 30), ("sync-exp", 120, 30)]
 VT = [("unsync-small", 2000, 60), ("unsync-mid", 400, 400), ("sync-small", 2000, 60), ("sync-mid", 400, 400),
-      ("sync-eager", 600, 120), ("sync-far", 6000, 20), ("sync-burst", 7000, 4), ("sync-grow", 1200, 2),
+      ("sync-eager", 600, 120), ("sync-far", 6000, 20), ("sync-burst", 7000, 4), ("sync-stale", 5000, 0), ("sync-grow", 1200, 2),
       ("unsync-batch", 120, 0), ("sync-batch", 12, 0), ("unsync-exp", 4000, 40), ("sync-exp", 2000, 40)]
 
 QSLICES = {
@@ -129,13 +129,38 @@ RQ_EXTRA = {
     "C07": [RU("ttl2", nkeys=2, vals=(1,), depth=6)],
 }
 
+# the thorough exhaustive slices that bear on each property (C03 and C10, the broadest, take all)
+_CAPS = ["cap_unit", "cap_weight3", "cap_weight2", "cap_const3", "s_cap1", "s_cap2", "s_cap_unit", "s_cap2_w",
+         "s_cap_const", "s_cap1_k3"]
+_EXPS = ["expiry3", "cap1_ttl", "cap2_tti3", "cap2_ttl_tti_w", "cap1_ttl0", "s_cap1_ttl", "s_cap2_tti", "s_expiry",
+         "s_cap2_ttl_tti_w"]
+TSLICES = {
+    "C01": ["cap_unit", "expiry3", "cap_const3", "cap1_ttl", "s_cap1", "s_expiry", "s_cap1_ttl", "s_cap_const"],
+    "C03": list(T),
+    "C04": _CAPS + ["cap2_ttl_tti_w", "s_cap2_ttl_tti_w"],
+    "C05": ["expiry3", "cap1_ttl", "cap1_ttl0", "cap2_ttl_tti_w", "s_cap1_ttl", "s_expiry", "s_cap2_ttl_tti_w"],
+    "C06": ["expiry3", "cap2_tti3", "cap2_ttl_tti_w", "s_cap2_tti", "s_expiry", "s_cap2_ttl_tti_w"],
+    "C07": ["cap_unit", "s_cap1"] + _EXPS,
+    "C08": ["cap_unit", "cap_weight3", "cap1_ttl", "cap2_tti3", "cap2_ttl_tti_w", "s_cap1", "s_cap2_w", "s_cap1_ttl",
+            "s_cap2_tti", "s_cap2_ttl_tti_w", "s_cap1_k3"],
+    "C10": list(T),
+    "C11": ["cap_unit", "cap_weight2", "cap1_ttl", "cap2_tti3", "s_cap1", "s_cap2", "s_cap1_ttl", "s_cap2_tti",
+            "s_cap1_k3"],
+    "C12": ["cap_unit", "cap_weight3", "cap_weight2", "cap2_tti3", "cap2_ttl_tti_w", "s_cap2", "s_cap_unit", "s_cap2_w",
+            "s_cap2_ttl_tti_w", "s_cap1_k3"],
+    "C13": _CAPS,
+    "C14": ["cap_unit", "cap_const3", "s_cap1", "s_cap_const"],
+    "C15": ["cap_unit", "expiry3", "cap2_tti3", "cap2_ttl_tti_w", "s_cap1", "s_cap2_tti", "s_expiry"],
+    "C16": ["cap_unit", "expiry3", "cap1_ttl0", "s_expiry", "s_cap1_ttl", "s_cap2_tti"],
+}
+
 SEQ_PLANS = {}
 for _p, _sl in QSLICES.items():
     SEQ_PLANS[_p] = dict(
         quick=dict(mc=[dict(Q[n], name=n) for n in _sl], r=RQ + RQ_EXTRA.get(_p, []), v=VQ),
-        thorough=dict(mc=[dict(c, name=n) for n, c in T.items()], r=RT, v=VT))
+        thorough=dict(mc=[dict(T[n], name=n) for n in TSLICES[_p]], r=RT, v=VT))
 # the C07 monitor remembers contains_key answers: keep its exhaustive universes at two keys
-SEQ_PLANS["C07"]["thorough"]["mc"] = [dict(c, name=n, nkeys=2) for n, c in T.items()] + [dict(Q["cap2"], name="cap2k3", timeout=1200)]
+SEQ_PLANS["C07"]["thorough"]["mc"] = [dict(T[n], name=n, nkeys=2) for n in TSLICES["C07"]] + [dict(Q["cap2"], name="cap2k3", timeout=1200)]
 
 
 def seq_plan(prop, tier):
@@ -299,18 +324,23 @@ def judge_trace(ctx, name, trace, beh_path, nkeys, layer_i, source, layer_budget
     all_mismatch: every behaviour of this trace ends in an event that differs from the model's."""
     drift_at = {}
     if layer_i and layer_budget:
-        # Layer I conformance on the head of the trace, the monitor on all of it
+        # Layer I beside the code on as much of the trace as the budget allows (whole behaviours
+        # from the front), the monitor on all of it; both in concurrent parts
         head, n = head_of(trace, layer_budget)
-        if n:
-            lr = V.trace_check(ctx.wd, name + "_layerI", head, [], nkeys, layer_i=True)
-            ctx.conform += lr["stats"]["conform"]
-            for (bid, line) in lr["drift"]:
-                drift_at.setdefault(bid, line)
-                if len(ctx.drift) < 20:
-                    ctx.drift.append({"source": source, "behaviour": bid, "line": line})
-        os.remove(head)
-        layer_i = False
-    res = V.trace_check(ctx.wd, name, trace, [ctx.prop], nkeys, layer_i=layer_i)
+        total = sum(1 for _ in open(trace))
+        if n >= total:
+            os.remove(head)
+        else:
+            if n:
+                lr = V.trace_check_par(ctx.wd, name + "_layerI", head, [], nkeys, layer_i=True)
+                ctx.conform += lr["stats"]["conform"]
+                for (bid, line) in lr["drift"]:
+                    drift_at.setdefault(bid, line)
+                    if len(ctx.drift) < 20:
+                        ctx.drift.append({"source": source, "behaviour": bid, "line": line})
+            os.remove(head)
+            layer_i = False
+    res = V.trace_check_par(ctx.wd, name, trace, [ctx.prop], nkeys, layer_i=layer_i)
     st = res["stats"]
     ctx.conform += st["conform"]
     ctx.events += st["events"]
@@ -457,7 +487,7 @@ def stage_v(ctx, runs):
         summary, crashes = V.replay_file(beh, trace)
         nkeys = json.loads(open(beh).readline())["cfg"]["nkeys"]
         judge_trace(ctx, name, trace, beh, nkeys, True, "random:%s seed=%d" % (profile, ctx.seed * 1000 + i),
-                    layer_budget=(1500 if ctx.tier == "quick" else 12000) if profile.startswith("sync") else None)
+                    layer_budget=(40000 if ctx.tier == "quick" else 400000) if profile.startswith("sync") else None)
 
         if len(ctx.samples) < 5:
             b = json.loads(open(beh).readline())
